@@ -348,7 +348,7 @@ func run(c *hl.Ctx) error {
 	if c.Search && foundDiff {
 		return nil
 	}
-	n := c.Pick(4, 400)
+	n := c.Pick(4, 150)
 	if os.Getenv("D2V_RACE") != "" {
 		n = c.Pick(2, 10)
 	}
